@@ -234,7 +234,7 @@ def cases(tier, seed):
     OTHERF = rs("a/t", [["varint", "n"], ["string", "s"]], ["8", "'swapped'"])
     kinds = {"V1": V1, "V2": V2, "BADINT": BADINT, "BADSTR": BADSTR, "BADLATE": BADLATE, "OTHER": OTHER, "OTHERF": OTHERF}
     bad = {"BADINT", "BADSTR", "BADLATE"}
-    for k in range(1, 4):
+    for k in range(1, 5 if tier == "thorough" else 4):
         for seq in itertools.product(kinds, repeat=k):
             if not any(s in bad or s.startswith("OTHER") for s in seq):
                 continue
